@@ -2812,7 +2812,10 @@ impl<E: Effect> Executor<E> {
                         .all(|(a, b)| self.values_equal(a, b))
             }
             (Value::Builtin(a), Value::Builtin(b)) => a == b,
-            (Value::Process(a, func_a), Value::Process(b, func_b)) => a == b && func_a == func_b,
+            // A process is identified by its pid alone; the second component is only the type
+            // information of the function it was seen running (it differs between two `.` taken
+            // on different REPL lines of the same process).
+            (Value::Process(a, _), Value::Process(b, _)) => a == b,
             (Value::Reference(a), Value::Reference(b)) => a == b,
             _ => false,
         }
